@@ -6,7 +6,9 @@
 package clusterinfo
 
 //@ func New(log lg.AppLogFunc, client *http_api.Client) *ClusterInfo
-//@   props C19
-//@   ensures[new] result != nil && fresh(result) && result.client == client
-//@   modifies
+//@   props C19 C17 C18
 //@   nochan
+//@   ensures[new] result != nil && fresh(result) && result.client == client
+//@   ensures[new-j] result != nil && fresh(result)
+//@   ensures[as-given] result.client == client && result.log == log
+//@   modifies
